@@ -402,6 +402,10 @@ func runC03(ctx *common.Ctx) error {
 		{"flag-change-through-other-mailbox-keeps-deleted", 2, []op{sel(0, "b1"), sel(1, "b2"), app(0, "b1", "c1"), app(0, "b1", "c2"),
 			{Kind: "COPY", S: 0, Set: "1:2", Box: "b2"}, sto(0, "1", "+", `\Deleted`), sto(1, "1", "+", "other"), {Kind: "EXPUNGE", S: 0},
 			sto(0, "1", "+", `\Deleted`), sto(1, "2", "=", `\Seen`), {Kind: "CLOSE", S: 0, Box: "b1"}}},
+		{"read-only-selection-changes-nothing", 2, []op{sel(0, "b1"), sel(1, "b1"), app(0, "b1", "r1"), app(0, "b1", "r2", `\Deleted`), app(0, "b1", "r3"),
+			sto(0, "1", "+", `\Deleted`), {Kind: "EXAMINE", S: 1, Box: "b1"}, sto(1, "3", "+", "x"), sto(1, "1:2", "-", `\Deleted`), {Kind: "EXPUNGE", S: 1},
+			{Kind: "UIDEXPUNGE", S: 1, Set: "1:*"}, {Kind: "MOVE", S: 1, Set: "1", Box: "b2"}, {Kind: "COPY", S: 1, Set: "2:3", Box: "b2"}, app(1, "b1", "r4"),
+			{Kind: "CLOSE", S: 1, Box: "b1"}, {Kind: "EXAMINE", S: 0, Box: "b1"}, {Kind: "CLOSE", S: 0, Box: "b2"}, {Kind: "EXPUNGE", S: 1}}},
 		{"stale-targets", 2, []op{sel(0, "b1"), sel(1, "b1"), app(0, "b1", "s1"), app(0, "b1", "s2"), {Kind: "COPY", S: 0, Set: "1", Box: "b2"},
 			sto(0, "1", "+", `\Deleted`), {Kind: "EXPUNGE", S: 0}, sto(1, "1", "+", "late"), {Kind: "MOVE", S: 1, Set: "1", Box: "b2"},
 			{Kind: "COPY", S: 1, Set: "1", Box: "b3"}, {Kind: "EXPUNGE", S: 1}}},
